@@ -137,7 +137,19 @@ def rand_spec(rng, opts=None):
     else:
         rest = order
     for t in rest:
-        groups.append(["plain", [t]])
+        if rng.random() < opts.get("p_single_group", 0.0):
+            # a single transaction placed in one alternative of a module-level control structure
+            kind = rng.choice(["if", "switch", "fsm"] if opts.get("fsm") else ["if", "switch"])
+            nalt = rng.randint(2, 3)
+            alts = [[] for _ in range(nalt)]
+            alts[rng.randrange(nalt)] = [t]
+            groups.append([kind, alts, True] if kind != "fsm" else [kind, alts])
+        else:
+            groups.append(["plain", [t]])
+    group_module = [0] * len(groups)
+    if opts.get("multi"):
+        nmod = rng.randint(1, 3)
+        group_module = [rng.randrange(nmod) for _ in groups]
     rels = []
     pc = opts.get("p_conflict", 0.4)
     if rng.random() < pc and ntr >= 2:
@@ -159,7 +171,7 @@ def rand_spec(rng, opts=None):
     for mi, ms in enumerate(methods):
         if ms.get("ready_on_run") is not None:
             rels.append(["before", ["m", ms["ready_on_run"]], ["m", mi], False])
-    return dict(methods=methods, transactions=trs, relations=rels, groups=groups, witness=bool(opts.get("witness")))
+    return dict(methods=methods, transactions=trs, relations=rels, groups=groups, group_module=group_module, witness=bool(opts.get("witness")))
 
 
 def _def_position(groups, ti):
@@ -368,12 +380,19 @@ class Design(Elaboratable):
         sp = self.spec
         keep = Signal(name="_keep_sync")  # keeps the sync domain present for amaranth.sim replays
         m.d.sync += keep.eq(1)
+        gmods = sp.get("group_module") or [0] * len(sp["groups"])
+        self.tms = {0: m}
+        for k in sorted(set(gmods)):
+            if k != 0:
+                self.tms[k] = TModule()  # a second/third module: own control-path namespace
+                m.submodules[f"mod{k}"] = self.tms[k]
+        top = m
         for mi, ms in enumerate(sp["methods"]):
             if ms.get("nested_in") is None:
-                self._def_method(m, mi, [], [], [])
+                self._def_method(m, mi, [(("mod", 0), 0)], [], [])
         self.T = [None] * len(sp["transactions"])
 
-        def emit_t(ti, tpath, lits):
+        def emit_t(m, ti, tpath, lits):
             tsp = sp["transactions"][ti]
             req = self.inp(f"req_{tsp['name']}")
             self.treq[ti] = req
@@ -411,10 +430,12 @@ class Design(Elaboratable):
                 self.emit_body(m, ("t", ti), tsp["body"], tpath + [(node, 0)], lits, [("t", ti)])
             self.T[ti] = t
 
-        for g in sp["groups"]:
+        for gi, g in enumerate(sp["groups"]):
+            m = self.tms[gmods[gi]]
+            mp = [(("mod", gmods[gi]), 0)]
             if g[0] == "plain":
                 for ti in g[1]:
-                    emit_t(ti, [], [])
+                    emit_t(m, ti, mp, [])
             elif g[0] == "if":
                 _, alts, has_else = g
                 gnode = next(self.nid)
@@ -427,7 +448,7 @@ class Design(Elaboratable):
                     lit = [("n", x) for x in conds] + ([] if is_else else [("p", c)])
                     with ctx:
                         for ti in tis:
-                            emit_t(ti, [(gnode, j)], lit)
+                            emit_t(m, ti, mp + [(gnode, j)], lit)
                     if not is_else:
                         conds.append(c)
             elif g[0] == "switch":
@@ -441,14 +462,14 @@ class Design(Elaboratable):
                         lit = [("ne", sel, k) for k in range(ncase)] if is_def else [("eq", sel, j)]
                         with (m.Default() if is_def else m.Case(j)):
                             for ti in tis:
-                                emit_t(ti, [(gnode, j)], lit)
+                                emit_t(m, ti, mp + [(gnode, j)], lit)
             elif g[0] == "fsm":
                 _, alts = g
                 gnode = next(self.nid)
 
-                def emit_alt(j, lit, alts=alts, gnode=gnode):
+                def emit_alt(j, lit, alts=alts, gnode=gnode, m=m, mp=mp):
                     for ti in alts[j]:
-                        emit_t(ti, [(gnode, j)], lit)
+                        emit_t(m, ti, mp + [(gnode, j)], lit)
 
                 self._emit_fsm(m, gnode, len(alts), emit_alt)
 
@@ -466,7 +487,7 @@ class Design(Elaboratable):
                 obj(r[1]).add_conflict(obj(r[2]), pr)
             else:
                 obj(r[1]).schedule_before(obj(r[2]), ready_dependent=bool(r[3]))
-        return m
+        return top
 
 
 # ------------------------------------------------------------------ oracle (computed from the spec + site table only)
